@@ -473,8 +473,12 @@ struct vec_sys
       x[u].reset();
       x[u].emplace(std::move(v));
       m[u] = std::move(r);
-      r.clear(); // a moved-from vector is empty
-      VRT_CHECK(v.empty(), sig("move_construct:source_not_empty"), "moved-from raw_vector has size %zu", v.size());
+      // the source of a move is valid but unspecified (today: empty): adopt what the implementation left there, the
+      // invariants (size <= capacity, storage accounting, contents) are checked on it like on any other vector
+      VRT_CHECK(v.size() <= v.capacity(), sig("move_construct:source_invalid"), "size %zu > capacity %zu", v.size(), v.capacity());
+      if (!v.empty())
+        vrt::count("info:raw_vector:moved_from_not_empty");
+      r.assign(v.begin(), v.end());
       break;
     }
     case MOVE_ASSIGN:
@@ -780,8 +784,11 @@ struct buf_sys
       b[u].emplace(std::move(x));
       rd[u] = rd[t];
       ws[u] = ws[t];
-      rd[t].clear();
-      ws[t] = 0;
+      // the moved-from buffer is valid but unspecified (today: empty): adopt what the implementation left there
+      if (x.read_size() != 0 || x.write_size() != 0)
+        vrt::count("info:buffer:moved_from_not_empty");
+      rd[t].assign(x.begin(), x.end());
+      ws[t] = x.write_size();
       break;
     case B_MOVE_ASSIGN:
       *b[u] = std::move(x);
